@@ -37,7 +37,15 @@ package jsonrpc2
 //@   ensures implies(result2 == nil, failedDuring == old(failedDuring))
 
 // Frames of concurrent senders never interleave: the whole frame is written
-// while the write mutex is held.
+// while the write mutex is held. Every call of the connection's Stream.Write - in a function under contract or not
+// (call-site sweep over the package) - happens with the sender's write mutex held.
+//@ func (Stream) Write [C18]
+//@   interface
+//@   callsite requires held(c.writeMu)
+//@ func (*conn) Notify [C18]
+//@   requires c != nil && !held(c.writeMu)
+//@   modifies *
+//@   ensures !held(c.writeMu)
 //@ func (*conn) write [C18]
 //@   requires c != nil && !held(c.writeMu)
 //@   modifies failedDuring
